@@ -2292,6 +2292,11 @@ impl<'ast> Check<'ast> for &'ast Ast<'ast> {
                     pat_types,
                 ) in with_pat_types.iter()
                 {
+                    // The bindings of a pattern are local to its own arm: work on a copy of the
+                    // context, otherwise the variables bound by an earlier arm stay in scope in
+                    // the guards and bodies of the following arms.
+                    let mut ctxt = ctxt.clone();
+
                     if let Some(alias) = &pattern.alias {
                         visitor.visit_ident(alias, return_type.clone());
                         ctxt.type_env.insert(alias.ident(), return_type.clone());
